@@ -15,14 +15,33 @@ def generate(ctx, sizes, quick):
         restarts = "{0, %d}" % (n // 2) if quick else "{%s}" % ", ".join(str(i) for i in range(n))
         dups = "{0}" if quick else "{0, 1, %d}" % n
         r = ctx.tlc_gen("IndexOOOGen", "IndexOOOGen.cfg", overrides={"Shape": si, "N": n, "Restarts": restarts, "Dups": dups}, tag="RPL")
-        cap = 260 if quick else 6000
+        cap = 260 if quick else 1500
         if len(r) > cap:
             r = rng.sample(r, cap)
         allr += r
     return allr
 
 
-def run_driver(ctx, replays, kv="memory", tag="", which="both", race=False, extra=(), stderr_sink=None):
+def run_driver(ctx, replays, kv="memory", tag="", which="both", race=False, extra=(), stderr_sink=None, shards=1):
+    """shards > 1: the replays are dealt to that many driver processes running in parallel (each replay is an
+    independent history starting from an empty index); the traces are concatenated."""
+    if shards > 1 and len(replays) > 4 * shards:
+        from concurrent.futures import ThreadPoolExecutor
+        ctx.build("c05", race=race)
+        parts = [replays[k::shards] for k in range(shards)]
+        with ThreadPoolExecutor(max_workers=shards) as ex:
+            outs = list(ex.map(lambda kp: _run_driver1(ctx, kp[1], kv, "%s_s%d" % (tag, kp[0]), which, race, extra, stderr_sink), enumerate(parts)))
+        o5, o6 = ctx.path("c05%s.ndjson" % tag), ctx.path("c06%s.ndjson" % tag)
+        for dst, k in ((o5, 0), (o6, 1)):
+            with open(dst, "w") as f:
+                for o in outs:
+                    f.write(open(o[k]).read())
+                    os.remove(o[k])
+        return o5, o6
+    return _run_driver1(ctx, replays, kv, tag, which, race, extra, stderr_sink)
+
+
+def _run_driver1(ctx, replays, kv="memory", tag="", which="both", race=False, extra=(), stderr_sink=None):
     """Runs cmd/c05 over the replays. A death of the driver inside perkeep code (panic / fatal error) is an
     observation: it is reported as a discrepancy and the remaining replays are run by a fresh process."""
     import re
